@@ -3,8 +3,8 @@
 
   One line = one tool invocation:
 
-    xz <mode d|t> <stdout 0|1> <force> <nosparse> <nowarn> <kind r|p> <append> <nonblock> <offset> <content> <nfiles>
-       { <fmtKnown> <initWarn> <initRet> <warn> <ret> <allowTrailing> <trailing> <out> <raw> }*
+    xz <mode d|t> <stdout 0|1> <force> <nosparse> <nowarn> <single> <kind r|p> <append> <nonblock> <offset> <content> <nfiles>
+       { <fmtKnown> <initWarn> <initRet> <warn> <ret> <isLzip> <trailing> <out> <raw> }*
       -> exit=<n> trace=<events> off=<n> flags=<a><n> size=<n> content=<bytes> created=<bytes|none>;… ctrace=<events>;…
 
     xzdec <lzmadec 0|1> <kind> <append> <nonblock> <offset> <content> <nfiles> { <ret> <trailing> <out> }*
@@ -104,7 +104,7 @@ def parseXzFiles : Nat → List String → Option (List FileIn)
     let raw ← parseRle raw
     let more ← parseXzFiles n rest
     pure ({ fmtKnown := fk, initWarn := iw, initRet := Ret.ofCode ir,
-            steps := canonicalSteps cfg w out (Ret.ofCode r), allowTrailing := at_, trailing := tr, raw := raw } :: more)
+            steps := canonicalSteps cfg w out (Ret.ofCode r), isLzip := at_, trailing := tr, raw := raw } :: more)
   | _, _ => none
 
 def parseDecFiles : Nat → List String → Option (List (List UInt8 × Ret × Bool))
@@ -119,10 +119,10 @@ def parseDecFiles : Nat → List String → Option (List (List UInt8 × Ret × B
 
 def runXz (ws : List String) : Option String :=
   match ws with
-  | mode :: so :: force :: nosp :: nowarn :: kind :: app :: nb :: off :: content :: nf :: rest => do
+  | mode :: so :: force :: nosp :: nowarn :: single :: kind :: app :: nb :: off :: content :: nf :: rest => do
     let m ← if mode == "d" then some Mode.decompress else if mode == "t" then some Mode.test else none
     let o : Opts := { mode := m, toStdout := (← parseBool so), force := (← parseBool force),
-                      noSparse := (← parseBool nosp), noWarn := (← parseBool nowarn) }
+                      noSparse := (← parseBool nosp), noWarn := (← parseBool nowarn), single := (← parseBool single) }
     let d ← parseDest kind app nb off content
     let files ← parseXzFiles (← nf.toNat?) rest
     let r := xzRun cfg o files d
